@@ -52,7 +52,7 @@ CHECKS = {
                 "storage operations is one run's followed by the other's. Tied to the code by traces of the real `vsb backup` "
                 "(exclusive non-blocking flock on the backup root is the first storage access and is held past the last removal) "
                 "and by starting a second real run while the first is paused right after the lock, while items are read, during "
-                "publication and during old-group removal: immediate lock error, no mutating storage call, listing unchanged; and by two real "
+                "publication and during old-group removal - also through a symbolic link to the same root in another configuration file: immediate lock error, no mutating storage call, listing unchanged; and by two real "
                 "`vsb upload` runs with one configuration file against the provider emulator, the second started while the first waits for "
                 "a delayed reply (during listing, during transfer): immediate lock error and not a single request from the refused run.",
         "note": "Partial: the exclusion itself is the kernel's flock(2); the scheduler model is an abstraction whose tie is the "
